@@ -135,8 +135,8 @@ def check_C02(tier, seed, replay=None):
         alpha = [R["a"], R["nl"], R["eacute"], R["euro"]]
     else:
         trees = F.exhaustive(1, F.LEAVES_UTF8 + F.PRED_LEAVES + [("state", "set", "x", 1)], ternary=False)
-        nrand, maxlen = 4000, 4
-        flagsets = FLAGSETS_8
+        nrand, maxlen = 3000, 3
+        flagsets = FLAGSETS_2 + [["-optimize-parser"]]
         alpha = [R["a"], R["b"], R["nl"], R["eacute"], R["euro"]]
     # every expression of the family is wrapped so that a labelled value reaches a block
     trees = [("lact", t, ("lit", (), False)) for t in trees] + trees
@@ -193,7 +193,7 @@ def check_C05(tier, seed, replay=None):
         nrand, maxlen, flagsets = 500, 3, [[], ["-optimize-parser"], ["-optimize-parser", "-optimize-basic-latin", "-nolint"]]
     else:
         trees = F.exhaustive(2, [("lit", (F.A,), False), ("lit", (), False), ("state", "inc", "x", 1), ("state", "app", "cl", 2), ("pred", False, "eq", "x", 1)])
-        nrand, maxlen, flagsets = 4000, 4, FLAGSETS_8
+        nrand, maxlen, flagsets = 3000, 3, FLAGSETS_8
     groups = F.groups_from_trees(trees)
     cfg = F.RandCfg(depth=4, maxrules=3, state=True, cloner=True, gstore=True, preds=True)
     groups += F.random_groups(seed, nrand, cfg, gi0=len(groups) + 1)
@@ -254,8 +254,8 @@ def check_C06(tier, seed, replay=None):
         trees = F.exhaustive(1, F.LEAVES_FULL + F.PRED_LEAVES)
         nrand, ndr, maxlen = 400, 60, 3
     else:
-        trees = F.exhaustive(2, F.LEAVES_SMALL + [("pred", False, "true")])
-        nrand, ndr, maxlen = 3000, 400, 4
+        trees = F.exhaustive(1, F.LEAVES_FULL + F.PRED_LEAVES) + F.exhaustive(2, F.LEAVES_SMALL[:3])
+        nrand, ndr, maxlen = 1500, 400, 3
     groups = F.groups_from_trees(trees)
     cfg = F.RandCfg(depth=4, maxrules=3, preds=True, errs=0.2)
     groups += F.random_groups(seed, nrand, cfg, gi0=len(groups) + 1)
@@ -300,8 +300,8 @@ def check_C10(tier, seed, replay=None):
     import findings
     from rt import pairwise
     run = Run("C10", tier, seed)
-    n = 250 if tier == "quick" else 2000
-    maxlen = 3 if tier == "quick" else 4
+    n = 250 if tier == "quick" else 800
+    maxlen = 3
     groups = F.random_groups(seed, n, F.RandCfg(depth=4, safe_rep=False), 1)
     groups += F.random_groups(seed + 1, n, F.RandCfg(depth=4, state=True, cloner=True, gstore=True, preds=True, errs=0.2), len(groups) + 1)
     groups += F.random_groups(seed + 2, n, F.RandCfg(depth=4, throw=True, preds=True, errs=0.3, leaves=F.LEAVES_FULL + F.LEAVES_UTF8), len(groups) + 1)
@@ -348,7 +348,7 @@ def check_C11(tier, seed, replay=None):
     # error-returning blocks inside left-recursive growth (errors of the final, non-extending attempt are not retained)
     nlr0 = len(groups)
     seedy = seed * 77
-    while len(groups) < nlr0 + (25 if tier == "quick" else 150):
+    while len(groups) < nlr0 + (25 if tier == "quick" else 60):
         seedy += 1
         g = F.lr_group(random.Random(seedy), len(groups) + 1)
         if 1 <= sum(1 for n in g.nodes if n["blk"]) <= maxblk + 1:
@@ -383,8 +383,8 @@ def check_C12(tier, seed, replay=None):
         base = F.exhaustive(1, F.LEAVES_FULL)
         nrand, maxlen = 500, 3
     else:
-        base = F.exhaustive(2, F.LEAVES_SMALL + [("lit", (F.A, F.B), False)])
-        nrand, maxlen = 3000, 4
+        base = F.exhaustive(2, F.LEAVES_SMALL)
+        nrand, maxlen = 3000, 3
     trees = base + [("not", ("not", t)) for t in base[:192]] + [("seq", ("not", t), ("any",)) for t in base[:192]] + \
         [("seq", ("and", ("not", t)), ("lit", (F.A,), False)) for t in base[:192]]
     groups = F.groups_from_trees(trees)
@@ -471,7 +471,7 @@ def check_C16(tier, seed, replay=None):
                       ("choice", ("seq", ("plus", ("opt", e)), ("lit", (F.B,), False)), ("any",)),
                       ("star", ("seq", ("opt", e), ("star", ("lit", (), False))))]
     groups += F.groups_from_trees(div_trees + F.exhaustive(1, F.LEAVES_SMALL))
-    n, maxlen, maxb = (150, 3, 12) if tier == "quick" else (1500, 4, 40)
+    n, maxlen, maxb = (150, 3, 12) if tier == "quick" else (500, 4, 24)
     groups += F.random_groups(seed, n, F.RandCfg(depth=4, safe_rep=False, preds=True), gi0=len(groups) + 1)
     groups += F.random_groups(seed + 3, n // 2, F.RandCfg(depth=4, safe_rep=False, throw=True, state=True), gi0=len(groups) + 1)
     inputs = F.all_inputs([F.A, F.B], maxlen)
@@ -520,14 +520,14 @@ def check_C17(tier, seed, replay=None):
     trees = F.exhaustive(1, leaves)
     trees += [("action", ("seq", ("label", t), ("star", ("any",)))) for t in leaves]
     groups = F.groups_from_trees(trees)
-    nrand = 100 if tier == "quick" else 600
+    nrand = 100 if tier == "quick" else 150
     groups += F.random_groups(seed, nrand, F.RandCfg(depth=3, leaves=leaves, preds=True), gi0=len(groups) + 1)
     bts = [0x61, 0xC3, 0xA9, 0x80, 0xFF, 0xED, 0xA0, 0xEF, 0xBF, 0xBD, 0xC0, 0xAF]
     maxlen = 2 if tier == "quick" else 3
     inputs = F.all_inputs(bts, maxlen)
     rng = random.Random(seed)
     extra_len = maxlen + 1
-    for _ in range(300 if tier == "quick" else 3000):
+    for _ in range(300 if tier == "quick" else 1500):
         inputs.append([rng.choice(bts + [0xF0, 0x9F, 0x98, 0x80, 0xE2, 0x82, 0xAC, 0x0A]) for _ in range(rng.randint(extra_len, extra_len + 2))])
     options = [opt(), opt(allowinv=True), opt(maxexpr=3000), opt(maxexpr=3000, allowinv=True)]
     nin = len(inputs)
@@ -543,11 +543,11 @@ def check_C17(tier, seed, replay=None):
 def check_C08(tier, seed, replay=None):
     """left-recursive rules parse as the left-associative iteration they denote"""
     run = Run("C08", tier, seed)
-    n, maxlen = (250, 4) if tier == "quick" else (1500, 5)
+    n, maxlen = (250, 4) if tier == "quick" else (600, 4)
     groups = F.lr_groups(seed, n)
     inputs = F.all_inputs([F.NN, F.PLUS, F.STAR_, F.LP], maxlen)
     rng = random.Random(seed)
-    for _ in range(200 if tier == "quick" else 2000):
+    for _ in range(200 if tier == "quick" else 600):
         inputs.append([rng.choice([F.NN, F.NN, F.PLUS, F.MINUS, F.STAR_, 94, F.LP, F.RP, 120]) for _ in range(rng.randint(maxlen + 1, maxlen + 4))])
     inputs += [[F.NN, op, F.NN, 120] for op in (F.PLUS, F.MINUS, F.STAR_)] + [[F.NN, F.PLUS, F.NN, F.PLUS, F.NN, 120], [F.NN, F.PLUS, F.NN, F.STAR_, F.NN, 120]]
     options = [opt(), opt(memo=True)]
@@ -811,7 +811,7 @@ def check_C15(tier, seed, replay=None):
     from rt import pairwise
     run = Run("C15", tier, seed)
     rng = random.Random(seed)
-    n = 400 if tier == "quick" else 6000
+    n = 400 if tier == "quick" else 3000
     classes = []
     # exhaustive part: every single member / single range over the boundary alphabet, all four flag combinations
     small = [0x40, 0x41, 0x5A, 0x5B, 0x60, 0x61, 0x7A, 0x7B, 0x212A, 0x17F, 0x130]
@@ -1519,13 +1519,13 @@ def check_C09(tier, seed, replay=None):
     import findings
     from rt import pairwise
     run = Run("C09", tier, seed)
-    n, maxlen = (300, 3) if tier == "quick" else (3000, 4)
+    n, maxlen = (300, 3) if tier == "quick" else (1000, 3)
     groups = c09_groups(seed, n)
     groups += c09_idiom_groups(seed + 3, n, len(groups) + 1)
     groups += F.random_groups(seed + 5, n // 3, F.RandCfg(depth=3, maxrules=3, preds=True, throw=True), gi0=len(groups) + 1)
     inputs = F.all_inputs([F.A, F.B, F.UA, 99], maxlen)
     rngi = random.Random(seed)
-    for _ in range(150 if tier == "quick" else 1500):       # the idiom family's alphabet
+    for _ in range(150 if tier == "quick" else 600):       # the idiom family's alphabet
         inputs.append([rngi.choice([F.A, F.B, 99, 100, 101, 102, F.UA, 66, 95, 36, 48, 49]) for _ in range(rngi.randint(1, 5))])
     nin = len(inputs)
     options = [opt(), opt(maxexpr=3000)]
